@@ -130,25 +130,36 @@ P('C05', claimed=True, level='other',
   unreached=['all thread interleavings / wake-up latencies (sampled with injected 0-20 ms jitter)'])
 
 P('C06', claimed=True, level='other',
-  contracts=['base_osclib', 'base_netaddr'], drivers=['vf.drivers.C06'],
+  contracts=['base_osclib', 'base_netaddr', 'base_oscbuild', 'base_osclib_parse'], drivers=['vf.drivers.C06'],
   level_text=('Size and refusal laws of the OSC encoders (4-byte alignment, utf-8 length + 1..4 NULs, '
               'blob size prefix + padding with its loop invariant, int32/float32/timetag ranges, NUL '
-              'refused) are discharged on the real functions for all inputs. Conformance to OSC 1.0, '
+              'refused) are discharged on the real functions for all inputs, as are the sizing theorem for '
+              'messages/bundles (prediction >= real size over spec functions), get_blob (count, data, padding) '
+              'and the STRUCTURE of the recursive encoders OscInterface._build_msg/_build_bundle for argument '
+              'lists of any length and nesting depth: the builder is made for the address / for the time tag of '
+              'the bundle\'s own time, every argument causes exactly one builder action decided by the argument '
+              'alone (None and [] -> 0, bool -> int, message list -> datagram of a recursive _build_msg, bundle '
+              'list -> datagram of a recursive _build_bundle, array markers, other lists refused, everything else '
+              'unchanged), every nested bundle is checked against its parent\'s time BEFORE it is encoded, the '
+              'same send time goes into every recursive call, and the result is build(). Conformance to OSC 1.0, '
               'round trips, the sizing theorem (prediction >= real size) and clumping are decided by a '
               'bounded run-time contract against an independent OSC 1.0 codec (all argument lists of '
               'length <= 3 over a 30-value alphabet, nested to depth 4, sizes straddling 65504).'),
   level_note=('Byte contents are abstract in the proofs (length and contains-NUL only); content round '
-              'trips and the recursive sizing functions are bounded. Trusted: struct.pack ranges/lengths, '
-              'str.encode length facts.'))
+              'trips are bounded. In the encoder contracts the low-level builders are ghost objects and the '
+              'recursive calls opaque (induction on the nesting depth: the callee\'s contract is the same '
+              'contract). Trusted: struct.pack ranges/lengths, str.encode length facts.'))
 
 P('C07', claimed=True, level='other',
-  contracts=['base_oscinterface', 'base_main'], drivers=['vf.drivers.C07'],
+  contracts=['base_oscinterface', 'base_main', 'base_oscbuild'], drivers=['vf.drivers.C07'],
   level_text=('Time-tag arithmetic is proved on the real functions: RT bundles carry '
               'elapsed_time_to_osc(send_time + latency) or IMMEDIATELY for None/negative latency, NRT '
               'bundles are relative inside routines and absolute outside, nested bundles may not '
               'precede their parent, and the OSC time conversions are monotone and inverse within '
-              '2^-32 s. Scores (order, tail marker, raw form) and RT stamping under jitter are decided '
-              'by bounded run-time contracts.'),
+              '2^-32 s; every bundle (at any depth) gets the time tag of its own time at the one send time of the '
+              'call (_build_bundle contract); OscScore.add encodes and queues a bundle exactly once, at its own '
+              'processed time, with the 4-byte size prefix, and refuses after finish without effect. Scores '
+              '(tail marker, raw form) and RT stamping under jitter are decided by bounded run-time contracts.'),
   level_note='OscScore ordering relies on the TaskQueue contract (C09). RT runs sample schedules.',
   unreached=['RT stamping for all schedules (sampled under injected jitter)'])
 
